@@ -154,6 +154,8 @@ def unitary_test(run, rng, count):
             nb = [type(g).__name__ for g in out if not allowed(natives, g)]
         except Exception as e:
             dist, nb = float("inf"), [f"{type(e).__name__}: {e}"]
+            if "magic basis" in str(e) and not kind.startswith("kron"):
+                kind = "kak_magic_basis:" + kind
         n_done += 1
         kind = kind + (":updated" if updated else "")
         run.case(["unitary", sname, d, kind, i])
@@ -167,7 +169,7 @@ def unitary_test(run, rng, count):
         if (bcase['kind'], bcase['dim']) in seen:
             continue
         seen.add((bcase['kind'], bcase['dim']))
-        run.find(f"unitary:{bcase['kind']}:{bcase['dim']}",
+        run.find((f"{bcase['kind']}:{bcase['dim']}" if bcase['kind'].startswith("kak_magic_basis:") else f"unitary:{bcase['kind']}:{bcase['dim']}"),
                  "numerical translation of an arbitrary unitary is wrong or non-native", bcase)
 
 
